@@ -168,10 +168,13 @@ func init() {
 			nGen = 1500
 		}
 		// (1) SAN = IAN with every general-name kind
-		for i := 0; i < nGen; i++ {
+		for i := 0; i < nGen+len(namePool); i++ {
 			k := rng.Intn(4)
 			var names []genName
-			for j := 0; j < k; j++ {
+			if i < len(namePool) {
+				names = []genName{namePool[i]} // every name of the pool once by itself
+			}
+			for j := 0; j < k && i >= len(namePool); j++ {
 				names = append(names, pick(rng, namePool))
 			}
 			tmpl := leafTemplate()
